@@ -520,8 +520,13 @@ class OscScore():
         # when called from a routine but when called from ouside it
         # needs to undo the check of _get_timetag and _get_logical_time.
         # Those methods and this one would need refactoring all at once.
+        # The marker closes the score, it can't precede the last bundle.
+        last = self._scoreq.peek(False)[0]
         if _libsc3.main.current_tt is _libsc3.main.main_tt:
             tailtime += _libsc3.main.current_tt._seconds
+            tailtime = max(tailtime, last)
+        else:
+            tailtime = max(tailtime, last - _libsc3.main.current_tt._seconds)
         self.add([tailtime, ['/c_set', 0, 0]])  # Dummy cmd.
         for _, entry in self._scoreq:
             self._lst_score.append(entry.bndl)
